@@ -144,7 +144,21 @@ func NewRoundRobinDecoder(dec ...Decoder) Decoder {
 // NewDecoder returns a new gob Decoder for the given io.Reader.
 func NewDecoder(rd io.Reader) Decoder {
 	dec := gob.NewDecoder(rd)
-	return func(r *Result) error { return dec.Decode(r) }
+	return func(r *Result) error {
+		// gob sizes a nil map by the element count it finds in the stream
+		// before it has read a single element, so a corrupted count of
+		// billions of headers would allocate that much memory. Entries
+		// are added to a non-nil map one by one, as they are decoded.
+		fresh := r.Headers == nil
+		if fresh {
+			r.Headers = http.Header{}
+		}
+		err := dec.Decode(r)
+		if fresh && len(r.Headers) == 0 {
+			r.Headers = nil
+		}
+		return err
+	}
 }
 
 // Decode is an an adapter method calling the Decoder function itself with the
